@@ -92,7 +92,10 @@ def check_live_views(actor, where):
     with actor.ix.searcher() as srch:
         # "searches of any kind": generated boolean trees (intersections, negations, unions)
         for spec in (getattr(actor, "probe_queries", None) or []):
-            exp = sorted(Q.evaluate(spec, docs, mi.schema))
+            try:
+                exp = sorted(Q.evaluate(spec, docs, mi.schema))
+            except Q.Ambiguous:
+                continue
             try:
                 got = sorted(h["u"] for h in srch.search(Q.build(spec, mi.schema), limit=None))
                 got2 = sorted(srch.stored_fields(dn)["u"] for dn in srch.docs_for_query(Q.build(spec, mi.schema)))
